@@ -529,3 +529,70 @@ package graph
 //@   loop 4 invariant kahnBase(g, old(g), L, S) && len(S) == 0 && rmap4 == g.adjacencyOut
 //@   loop 4 invariant forall(a, any, b, any, edge(g, a, b) == (edge(old(g), a, b) && !inL(L, a)))
 //@   loop 4 invariant forall(a, any, imp(in(a, seen4), forall(b, any, !edge(g, a, b))))
+
+// ================================================================ C18: dijkstra.go, path.go
+
+//@ sort ItemM = map[interface{}]*distQueueItem
+// snap: the key the heap last saw for an item (T3): container/heap is correct
+// only if every key change is followed by heap.Fix.
+//@ ghostfield distQueueItem.snap int
+
+//@ ghost inq(q distQueue, x *distQueueItem) bool = x != nil && 0 <= x.index && x.index < len(q) && q[x.index] == x
+//@ ghost idxinv(q distQueue) bool = soff(q) == 0 && forall(j, int, imp(0 <= j && j < len(q), q[j] != nil && q[j].index == j))
+//@ ghost keysOK(q distQueue) bool = forall(j, int, imp(0 <= j && j < len(q), q[j].snap == q[j].distance))
+
+//@ func (distQueue).Len
+//@   pure
+//@   ensures result == len(pq)
+
+//@ func (distQueue).Less
+//@   pure
+//@   requires 0 <= i && i < len(pq) && 0 <= j && j < len(pq) && pq[i] != nil && pq[j] != nil
+//@   ensures result == (pq[i].distance < pq[j].distance)
+
+//@ func (distQueue).Swap
+//@   requires 0 <= i && i < len(pq) && 0 <= j && j < len(pq) && pq[i] != nil && pq[j] != nil
+//@   ensures  pq[i] == old(pq[j]) && pq[j] == old(pq[i]) && pq[i].index == i && pq[j].index == j
+//@   ensures  forall(k, int, imp(0 <= k && k < len(pq) && k != i && k != j, pq[k] == old(pq[k])))
+//@   ensures  forall(x, *distQueueItem, imp(x != old(pq[i]) && x != old(pq[j]), x.index == old(x.index)))
+//@   assigns  []*distQueueItem, distQueueItem.index
+
+//@ func (*distQueue).Push
+//@   requires typeis(x, *distQueueItem) && as(x, *distQueueItem) != nil
+//@   ensures  len(*pq) == old(len(*pq)) + 1 && (*pq)[len(*pq)-1] == as(x, *distQueueItem) && as(x, *distQueueItem).index == old(len(*pq))
+//@   ensures  forall(k, int, imp(0 <= k && k < old(len(*pq)), (*pq)[k] == old((*pq)[k])))
+//@   assigns  []*distQueueItem, distQueueItem.index, *distQueue
+
+//@ func (*distQueue).Pop
+//@   requires len(*pq) > 0 && (*pq)[len(*pq)-1] != nil
+//@   ensures  len(*pq) == old(len(*pq)) - 1 && result == box(old((*pq)[len(*pq)-1])) && old((*pq)[len(*pq)-1]).index == -1
+//@   ensures  forall(k, int, imp(0 <= k && k < len(*pq), (*pq)[k] == old((*pq)[k])))
+//@   assigns  []*distQueueItem, distQueueItem.index, *distQueue
+
+// T3 — container/heap, assumed: correct provided the five methods above meet
+// their contracts (which are verified) and every key change is followed by Fix.
+//@ assume-note T3: container/heap Init/Pop/Fix are assumed correct relative to the verified distQueue methods (contracts heap.Init/heap.Pop/heap.Fix in internal/graph/verif_contracts.go)
+//@ extern heap.Init :: (h any)
+//@   requires typeis(h, *distQueue) && as(h, *distQueue) != nil && idxinv(*as(h, *distQueue))
+//@   ensures  idxinv(*as(h, *distQueue)) && keysOK(*as(h, *distQueue)) && len(*as(h, *distQueue)) == old(len(*as(h, *distQueue)))
+//@   ensures  forall(x, *distQueueItem, inq(*as(h, *distQueue), x) == old(inq(*as(h, *distQueue), x)))
+//@   ensures  forall(x, *distQueueItem, imp(!old(inq(*as(h, *distQueue), x)), x.index == old(x.index) && x.snap == old(x.snap)))
+//@   assigns  []*distQueueItem, distQueueItem.index, distQueueItem.snap
+
+//@ extern heap.Pop :: (h any) any
+//@   requires typeis(h, *distQueue) && as(h, *distQueue) != nil && idxinv(*as(h, *distQueue)) && keysOK(*as(h, *distQueue)) && len(*as(h, *distQueue)) > 0
+//@   ensures  typeis(result, *distQueueItem) && old(inq(*as(h, *distQueue), as(result, *distQueueItem))) && as(result, *distQueueItem).index == -1
+//@   ensures  forall(x, *distQueueItem, imp(old(inq(*as(h, *distQueue), x)), as(result, *distQueueItem).distance <= x.distance))
+//@   ensures  idxinv(*as(h, *distQueue)) && keysOK(*as(h, *distQueue)) && len(*as(h, *distQueue)) == old(len(*as(h, *distQueue))) - 1
+//@   ensures  forall(x, *distQueueItem, inq(*as(h, *distQueue), x) == (old(inq(*as(h, *distQueue), x)) && x != as(result, *distQueueItem)))
+//@   ensures  forall(x, *distQueueItem, imp(!old(inq(*as(h, *distQueue), x)), x.index == old(x.index)))
+//@   assigns  []*distQueueItem, distQueueItem.index, *distQueue
+
+//@ extern heap.Fix :: (h any, i int)
+//@   requires typeis(h, *distQueue) && as(h, *distQueue) != nil && idxinv(*as(h, *distQueue))
+//@   requires [index-in-heap] 0 <= i && i < len(*as(h, *distQueue))
+//@   requires [only-this-key-changed] forall(j, int, imp(0 <= j && j < len(*as(h, *distQueue)) && j != i, (*as(h, *distQueue))[j].snap == (*as(h, *distQueue))[j].distance))
+//@   ensures  idxinv(*as(h, *distQueue)) && keysOK(*as(h, *distQueue)) && len(*as(h, *distQueue)) == old(len(*as(h, *distQueue)))
+//@   ensures  forall(x, *distQueueItem, inq(*as(h, *distQueue), x) == old(inq(*as(h, *distQueue), x)))
+//@   ensures  forall(x, *distQueueItem, imp(!old(inq(*as(h, *distQueue), x)), x.index == old(x.index) && x.snap == old(x.snap)))
+//@   assigns  []*distQueueItem, distQueueItem.index, distQueueItem.snap
